@@ -1,6 +1,6 @@
 (** C11 — property theorems (statements only; proofs by [exact]). *)
-From Coq Require Import ZArith.
-From RlibV Require Import C11.Model C11.Corr C11.Trace C11.Proofs C11.ProofsEgcd C11.ProofsLcm C11.ProofsCrt C11.ProofsCorr.
+From Coq Require Import ZArith List.
+From RlibV Require Import C11.Model C11.Corr C11.Trace C11.Proofs C11.ProofsEgcd C11.ProofsLcm C11.ProofsCrt C11.ProofsCorr C11.ProofsFits.
 Open Scope Z_scope.
 
 (** gcd is the non-negative greatest common divisor for operands of either sign, gcd 0 0 = 0 *)
@@ -47,3 +47,35 @@ Proof. exact crt_unique. Qed.
     the batch lemma about the model carries the spec to the implementation by proof *)
 Theorem c11_model_implies_spec : forall c : case, in_scope c -> model_check c = true -> spec_check c = true.
 Proof. exact model_implies_spec. Qed.
+
+(** the instrumented variants (C11/Trace.v: same code plus a list of every intermediate value) return the
+    model's results: they are the same computation *)
+Theorem c11_trace_same : forall a b c a1 m1 a2 m2 : Z,
+  fst (gcd_t a b) = gcd a b /\ fst (lcm_t a b) = lcm a b /\
+  fst (egcd_t a b c) = egcd a b c /\ fst (crt_t a1 m1 a2 m2) = crt a1 m1 a2 m2.
+Proof. exact trace_same. Qed.
+
+(** for operands of magnitude at most 2^20 every intermediate value of gcd, lcm, egcd fits in 63 bits *)
+Theorem c11_fits_2_20 : forall a b c : Z, Z.abs a <= 2 ^ 20 -> Z.abs b <= 2 ^ 20 -> Z.abs c <= 2 ^ 20 ->
+  Forall (fun v => Z.abs v < 2 ^ 62) (snd (gcd_t a b)) /\
+  Forall (fun v => Z.abs v < 2 ^ 62) (snd (lcm_t a b)) /\
+  Forall (fun v => Z.abs v < 2 ^ 62) (snd (egcd_t a b c)).
+Proof. exact fits_2_20. Qed.
+
+(** the same for crt on moduli up to 2^20 and reduced residues *)
+Theorem c11_fits_2_20_crt : forall a1 m1 a2 m2 : Z,
+  1 <= m1 <= 2 ^ 20 -> 1 <= m2 <= 2 ^ 20 -> 0 <= a1 < m1 -> 0 <= a2 < m2 ->
+  Forall (fun v => Z.abs v < 2 ^ 62) (snd (crt_t a1 m1 a2 m2)).
+Proof. exact fits_2_20_crt. Qed.
+
+(** general form: operands bounded by M keep every intermediate below M*M (+ M for crt) *)
+Theorem c11_fits_general : forall M a b c : Z, 1 <= M -> Z.abs a <= M -> Z.abs b <= M -> Z.abs c <= M ->
+  Forall (fun v => Z.abs v <= M) (snd (gcd_t a b)) /\
+  Forall (fun v => Z.abs v <= M * M) (snd (lcm_t a b)) /\
+  Forall (fun v => Z.abs v <= M * M) (snd (egcd_t a b c)).
+Proof. exact fits_general. Qed.
+
+Theorem c11_fits_general_crt : forall M a1 m1 a2 m2 : Z,
+  1 <= m1 <= M -> 1 <= m2 <= M -> 0 <= a1 < m1 -> 0 <= a2 < m2 ->
+  Forall (fun v => Z.abs v <= M * M + M) (snd (crt_t a1 m1 a2 m2)).
+Proof. exact fits_general_crt. Qed.
